@@ -132,11 +132,16 @@ func addDecimals(receiver object.Object, objType object.ObjectType, args ...obje
 		decimals = int(decimalArg.Value)
 	}
 
-	zeros := strings.Repeat("0", decimals)
-
-	if decimals == 0 {
+	if decimals <= 0 {
 		return &object.Str{Value: val}, nil
 	}
+
+	if decimals > maxRepeatLen {
+		msg := fmt.Sprintf(fail.ErrFuncResultTooLarge, "decimal", objType)
+		return nil, errors.New(msg)
+	}
+
+	zeros := strings.Repeat("0", decimals)
 
 	return &object.Str{Value: val + separator + zeros}, nil
 }
